@@ -415,6 +415,18 @@ class Sym:
                         if alts:
                             for f_ in set.intersection(*alts):
                                 add(f_)
+            # a match on the enum a crate-local selector returned (`match select_kernel(ext)`):
+            # what held on every path of the selector that builds that variant
+            if c[0] == "discr" and (isinstance(v, int) and not isinstance(v, bool)
+                                    or (isinstance(v, tuple) and v and v[0] == "not")):
+                x_ = c[1]
+                while isinstance(x_, tuple) and x_ and x_[0] in ("cast", "ref", "deref"):
+                    x_ = x_[2] if x_[0] == "cast" else x_[1]
+                if isinstance(x_, tuple) and x_ and x_[0] in ("call", "callat"):
+                    alts = call_alternatives(getattr(fn, "prog", None), x_, v, "variant")
+                    if alts:
+                        for f_ in set.intersection(*alts):
+                            add(f_)
             # `validator(..)?` continued / `if let Ok(..) = validator(..)`: what every Ok path of a
             # crate-local Result function established
             if c[0] == "discr" and v in (0, 1):
@@ -541,6 +553,14 @@ def call_alternatives(prog, e, val, want="bool"):
         return None
     if want == "cmp" and out_ty not in _INT_TYS:
         return None
+    if want == "variant":
+        base_ty = out_ty.split("<", 1)[0]
+        en = [a for k_, a in prog.adts.items()
+              if a.get("kind") == "Enum" and (a["name"] == base_ty or k_.endswith("::" + base_ty))]
+        if len(en) != 1 or "Result<" in out_ty or "Option<" in out_ty:
+            return None
+        vmap = {x_["name"]: (x_["discr"] if x_.get("discr") is not None else i_)
+                for i_, x_ in enumerate(en[0]["variants"])}
     if g.id in _ALT_BUSY:
         return None
     _ALT_BUSY.add(g.id)
@@ -601,6 +621,20 @@ def call_alternatives(prog, e, val, want="bool"):
                         return
                     count[0] = 10 ** 6
                     return
+                if want == "variant":
+                    # val = the discriminant found (int) or ('not', (v1, ..)): only paths that
+                    # build that variant are kept; any other kind of return value gives up
+                    if not (r[0] == "agg" and r[1] == "adt" and r[3] in vmap):
+                        count[0] = 10 ** 6
+                        return
+                    idx_ = vmap[r[3]]
+                    if isinstance(val, tuple):
+                        if idx_ in val[1]:
+                            return
+                    elif idx_ != val:
+                        return
+                    alts.append(fs)
+                    return
                 if want == "cmp":
                     # val = (op, k, truth): paths whose constant result contradicts
                     # `ret op k == truth` are dropped, the others keep their guards
@@ -620,7 +654,9 @@ def call_alternatives(prog, e, val, want="bool"):
                 alts.append(fs)
                 return
             for s_ in g.succ[b]:
-                extra = [(project(_subst(c_, mapping)), v_) for c_, v_ in edge.get((b, s_), []) if isinstance(v_, bool)]
+                extra = [(project(_subst(c_, mapping)), v_) for c_, v_ in edge.get((b, s_), [])
+                         if isinstance(v_, bool) or (c_[0] == "discr" and (
+                             isinstance(v_, int) or (isinstance(v_, tuple) and v_ and v_[0] == "not")))]
                 walk(s_, path, facts + extra)
         walk(0, [], [])
         if count[0] >= 10 ** 6:
